@@ -90,7 +90,7 @@ def compare(ctx, program, o, built=None, tag="random"):
 def map_semantics(ctx, rng):
     """Map: one (assignment, result) pair per element of the product, in order,
     each evaluated with that assignment overriding the caller's options."""
-    keys = rng.sample(["A", "B", "S.X", "T.X"], rng.choice([1, 2, 3]))
+    keys = rng.sample(["A", "B", "S.X", "S.Y", "T.X"], rng.choice([1, 2, 3, 3]))  # (S.X and S.Y: two mapped keys inside ONE section)
     lists = [[rng.choice(U.SCALARS) for _ in range(rng.choice([0, 1, 2, 3]))] for _ in keys]
     body = {"k": "tuple", "items": [{"k": "opt", "key": k, "dk": "const", "dv": "dflt"} for k in ["A", "B", "S.X", "S.Y", "T.X"]]}
     program = {"datasets": {}, "root": {"k": "map", "body": body, "iters": [[k, {"k": "const", "v": l}] for k, l in zip(keys, lists)]}}
